@@ -7,12 +7,13 @@
 (* case kind "drain": events read* close on KeepAliveTransport's body.      *)
 EXTENDS ClientCall, Json, IOUtils
 
-CONSTANT SlackMs
+CONSTANTS SlackMs, NoDeadlineMs
 
 VARIABLES l, st, skipping, fails, cs
 
 CInitT(e) ==
-  IF e.kind = "call" THEN [kind |-> "call", c |-> e.script, out |-> Outcomes(e.script)]
+  IF e.kind = "call" THEN [kind |-> "call", c |-> e.script, out |-> Outcomes(e.script),
+                           tsrc |-> e.tsrc, timeout_ms |-> e.timeout_ms, ctx_ms |-> e.ctx_ms]
   ELSE [kind |-> "drain", d |-> DInit,
         u |-> [len |-> e.len, chunk |-> e.chunk, eofWithData |-> e.eof_with_data, failAt |-> e.fail_at]]
 
@@ -27,11 +28,12 @@ ObsOf(c, e) ==
 Proj(o) == [res |-> o.res, resp |-> o.resp, files_closed |-> o.files_closed, writer_dead |-> o.writer_dead,
             resp_closed |-> o.resp_closed, drain_ok |-> o.drain_ok]
 
-InTime(e) == e.elapsed_ms <= e.deadline_ms + SlackMs
+\* returns no later than the effective deadline (NoDeadlineMs bounds a call that has none: only fault-free scripts)
+InTime(s, e) == e.elapsed_ms <= EffectiveDeadline(s.tsrc, s.timeout_ms, s.ctx_ms, e.cancel_ms, NoDeadlineMs) + SlackMs
 
 CallAllowed(s, e) ==
   /\ ~e.panic
-  /\ InTime(e)
+  /\ InTime(s, e)
   /\ (e.src_hit => e.result # "ok")            \* a failing upload source is never a success
   /\ e.upload_intact                           \* what the transport consumed is what was handed over (short reads lose nothing)
   /\ ObsOf(s.c, e) \in { Proj(o) : o \in s.out }
@@ -40,7 +42,7 @@ CallWhy(s, e) ==
   LET o == ObsOf(s.c, e)
       exp == { Proj(x) : x \in s.out } IN
   IF e.panic THEN "panic"
-  ELSE IF ~InTime(e) THEN "returned-after-effective-deadline"
+  ELSE IF ~InTime(s, e) THEN "returned-after-effective-deadline"
   ELSE IF e.src_hit /\ e.result = "ok" THEN "failing-upload-source-reported-as-success"
   ELSE IF ~e.upload_intact THEN "request-body-differs-from-what-was-handed-over"
   ELSE IF ~o.writer_dead /\ \A x \in exp : x.writer_dead THEN "goroutine-started-by-the-call-remains"
